@@ -17,7 +17,7 @@ from . import _c02_util as U
 from ._c02_classes import CLASSES, _Skip, _dt
 
 ID = "C02"
-LEAN_MODULES = ["NiftyVerif.Props.C02", "NiftyVerif.Model.LinOpsProto"]
+LEAN_MODULES = ["NiftyVerif.Props.C02", "NiftyVerif.Model.LinOpsProto", "NiftyVerif.Core.Proto"]
 DRIVER = "Driver/C02.lean"
 TRANSLATORS = []
 OBLIGATIONS = ["NiftyVerif.C02." + t for t in (
@@ -148,6 +148,12 @@ def oracle(case, classes=None):
     import random
     spec = (classes or CLASSES).get(case.get("cls"))
     if spec is None:
+        if classes is None and case.get("cls") in ("Nufft", "Gridder", "VarPos", "ShiftedFFT"):
+            from . import c35
+            return c35.nft_oracle(case)
+        if classes is None and "seed" in case:
+            from . import _c02_tol
+            return _c02_tol.oracle(case)
         return None
     try:
         op = spec.build(case)
@@ -297,6 +303,17 @@ def _corpus(pid="C02"):
 
 def run(ctx):
     run_table(ctx, CLASSES, DRIVER, ctx.n(11, 150), ctx.n(3, 20), "C02")
+    # operators with irrational weights: the generic part of the property at a tolerance (their documented
+    # quantity is C09/C35); NFT through the explicit-sum oracle of C35
+    from . import _c02_tol, c35
+    _c02_tol.run(ctx, ctx.n(120, 2000))
+    for _ in range(ctx.n(40, 400)):
+        c = c35._gen_nft(ctx.rng)
+        ctx.stat("tol-cls:" + c["cls"])
+        ctx.case(c, True)
+        r = c35.nft_oracle(c)
+        if r is not None:
+            ctx.counterexample(c, r[0], r[1])
 
 
 def run_table(ctx, classes, driver, per_class, per_mal, pid):
